@@ -35,7 +35,7 @@ def handle (j : Json) : Except String Json := do
     ("undefVar", Json.mkObj [("M", encErrs (noUndefinedVariables s d)), ("S", encErrs (noUndefinedVariablesS s d))]),
     ("unusedVar", Json.mkObj [("M", encErrs (noUnusedVariables s d)), ("S", encErrs (noUnusedVariablesS s d))]),
     ("varPos", Json.mkObj [("M", encErrs (variablesInAllowedPosition s d)), ("S", encErrs (variablesInAllowedPositionS s d))]),
-    ("uniqueFragNames", uniqueFragNames d), ("locsDistinct", locsDistinct d), ("coherent", cohB s d (envM s d)),
+    ("uniqueFragNames", uniqueFragNames d), ("locsDistinct", locsDistinct d), ("coherent", cohB s d (envM s d)), ("complete", compB s d (envM s d)),
     ("bounds", Json.mkObj [("sets", nSets d), ("spreadNames", nSpreadNames d), ("frags", nFrags d),
       ("fuel", fuelFor d)])]
 
